@@ -1,8 +1,6 @@
 package limit_test
 
 import (
-	"os"
-	"strings"
 	"fmt"
 		"sync"
 	"testing"
@@ -351,8 +349,8 @@ func c08TokenInterp(t *testing.T, c c08TCase, rule int) (v kit.Verdict) {
 			case "outage":
 				if !down {
 					switch o.M {
-					case "drop":
-						srv.setMode(c08Drop)
+					case "loading":
+						srv.setMode(c08Loading)
 					case "err":
 						srv.setMode(c08Err)
 					default:
@@ -557,7 +555,7 @@ func c08TokenGen(rt *rapid.T) c08TCase {
 // (limiter, outage) pairs: the redis wrapper's breaker (protection = 5
 // failures per 10 s window) can then never start rejecting commands by itself,
 // which would be an outage the generator did not ask for.
-func c08OutageGen(rt *rapid.T) c08TCase { return c08OutageGenModes(rt, strings.Split(os.Getenv("C08_MODES"), ","), true) }
+func c08OutageGen(rt *rapid.T) c08TCase { return c08OutageGenModes(rt, []string{"loading", "err"}, true) }
 
 func c08OutageGenModes(rt *rapid.T, modes []string, concurrent bool) c08TCase {
 	c := c08TCase{Lims: c08GenLims(rt, 3)}
@@ -666,12 +664,12 @@ func c08OutageGenModes(rt *rapid.T, modes []string, concurrent bool) c08TCase {
 
 func TestVerif_C08_token(t *testing.T) {
 	c08GetServer()
-	kit.Run(t, "C08", "token", kit.Opts{Quick: 400, Thorough: 48000}, c08TokenGen,
+	kit.Run(t, "C08", "token", kit.Opts{Quick: 300, Thorough: 40000}, c08TokenGen,
 		func(c c08TCase) kit.Verdict { return c08TokenInterp(t, c, c08RuleToken) })
 }
 
 func TestVerif_C08_outage(t *testing.T) {
 	c08GetServer()
-	kit.Run(t, "C08", "token-outage", kit.Opts{Quick: 300, Thorough: 24000}, c08OutageGen,
+	kit.Run(t, "C08", "token-outage", kit.Opts{Quick: 250, Thorough: 24000}, c08OutageGen,
 		func(c c08TCase) kit.Verdict { return c08TokenInterp(t, c, c08RuleOutage) })
 }
